@@ -326,3 +326,45 @@ def gen_history(rng, tmpls=(1, 2, 3, 4)):
         sc["cache"]["pods"] = copy.deepcopy(api["pods"])
     sc["tmpls"] = list(tmpls)
     return sc
+
+
+def gen_migrated(rng, complete=None):
+    """the world helper.Upgrade leaves behind, at any point of a rollout: revisions orphaned, carrying the upgrade
+    marker and none of the selector labels; pods orphaned (the built-in set was deleted with orphan propagation);
+    status copied"""
+    init_hashes()
+    sc = gen_rollout(rng)
+    api = sc["api"]
+    s = api["set"]
+    if complete is None:
+        complete = rng.random() < 0.5
+    if len(api["revs"]) < 2 or api["revs"][-1]["tmpl"] != s["tmpl"]:
+        api["revs"] = [r for r in api["revs"] if r["tmpl"] != s["tmpl"]] + [mkrev(revname(s["tmpl"]), 9, s["tmpl"], hashlabel=HASH[(s["tmpl"], 0)])]
+        for i, r in enumerate(api["revs"]):
+            r["revision"] = i + 1
+    new = api["revs"][-1]["name"]
+    for r in api["revs"]:
+        r["owner"], r["marker"], r["match"] = None, s["name"], False
+    for p in api["pods"]:
+        p["owner"] = None
+        p["term"] = False
+        if complete:
+            p["rev"], p["phase"], p["ready"] = new, "Running", True
+    if complete:
+        from props.c01 import first_free, py_slots
+        ann = s.get("ann") or {}
+        desired = set(first_free(s["replicas"], py_slots(ann.get("delete-slots")) or set()))
+        api["pods"] = [p for p in api["pods"] if int(p["name"].rsplit("-", 1)[1]) in desired]
+        have = {int(p["name"].rsplit("-", 1)[1]) for p in api["pods"]}
+        for o in sorted(desired - have):
+            api["pods"].append(mkpod(o, new, claims=s["claims"], owner=None))
+        st = s["status"]
+        st.update(replicas=len(api["pods"]), ready=len(api["pods"]), current=len(api["pods"]), updated=len(api["pods"]),
+                  currentRevision=new, updateRevision=new)
+    s["status"]["collisionCount"] = 0
+    api["claims"] = sorted({v["claim"] for p in api["pods"] for v in p["vols"] if v["claim"]})
+    cache = copy.deepcopy(api)
+    cache["revs"] = []
+    sc["cache"] = cache
+    sc["complete"] = complete
+    return sc
